@@ -10,7 +10,9 @@ import (
 	"os/exec"
 	"path/filepath"
 	"regexp"
+	"runtime/debug"
 	"strings"
+	"sync"
 	"testing"
 	"time"
 
@@ -212,6 +214,61 @@ func runC05(t testing.TB, c C05Case) (key, what string, classes map[string]int) 
 				return k, w, classes
 			}
 			classes["reprinted-help"]++
+		case "script-burst-after-template-failure":
+			// a template that fails while executing, then a good one, then many
+			// clients at once: every script still carries the served key's pin,
+			// once, and nothing else's output
+			s.Stop()
+			os.WriteFile(tmpl, []byte("partial {{.URL}} {{.Nope}} tail\n"), 0o644)
+			var npin string
+			custom = true
+			s, npin, k, w = startAndCheck(true)
+			if k != "" {
+				return k, w, classes
+			}
+			if cfg.CertFile != "" && firstPin != "" && npin != firstPin {
+				return "restart-other-key", fmt.Sprintf("%s: restart on the same cache serves sha256//%s, first run served sha256//%s", where, npin, firstPin), classes
+			}
+			if firstPin == "" {
+				firstPin = npin
+			}
+			pin = npin
+			if res, err := s.Request([]byte("GET /c HTTP/1.1\r\nHost: cb.example:9\r\nConnection: close\r\n\r\n"), "GET", ""); err != nil {
+				return "HARNESS", where + ": " + err.Error(), classes
+			} else if res.Status == 200 {
+				return "HARNESS", where + ": the failing template did not fail", classes
+			}
+			os.WriteFile(tmpl, []byte(strings.Repeat("# preamble of a long callback template\n", 600)+"custom {{.URL}} pin=sha256//{{.PubkeyFP}} id={{.ID}}\n"), 0o644)
+			old := debug.SetGCPercent(-1) // an idle process does not collect between two requests
+			const burst = 24
+			bodies := make([][]byte, burst)
+			errs := make([]error, burst)
+			var wg sync.WaitGroup
+			for i := 0; i < burst; i++ {
+				wg.Add(1)
+				go func(i int) {
+					defer wg.Done()
+					res, err := s.Request([]byte("GET /c HTTP/1.1\r\nHost: cb.example:9\r\nConnection: close\r\n\r\n"), "GET", "")
+					errs[i] = err
+					if res != nil {
+						bodies[i] = res.Body
+					}
+				}(i)
+			}
+			wg.Wait()
+			debug.SetGCPercent(old)
+			for i, b := range bodies {
+				if errs[i] != nil {
+					return "HARNESS", where + ": " + errs[i].Error(), classes
+				}
+				ms := anyPin.FindAllSubmatch(b, -1)
+				if len(ms) != 1 || string(ms[0][1]) != pin || bytes.Count(b, []byte("custom ")) != 1 || !bytes.HasSuffix(b, []byte("\n")) {
+					return "script-pin-differs", fmt.Sprintf("%s: one of %d scripts requested at once (after a failed template execution) carries %d pins / is malformed; the listener serves sha256//%s; script tail %q", where, burst, len(ms), pin, clip(string(b[max(0, len(b)-160):]), 160)), classes
+				}
+			}
+			os.WriteFile(tmpl, []byte("custom {{.URL}} pin=sha256//{{.PubkeyFP}} id={{.ID}}\n"), 0o644)
+			sites += burst
+			classes["script-burst-after-template-failure"]++
 		case "cache-replaced-while-running":
 			// somebody (a second instance, the operator) puts another key pair
 			// where the cache file is while this listener is up: what this
@@ -331,7 +388,7 @@ func genC05() *rapid.Generator[C05Case] {
 			c.CBAddrs = append(c.CBAddrs, rapid.SampledFrom([]string{"cb.example", "cb.example:8443", "10.9.8.7", "10.9.8.7:444", "[2001:db8::5]:4444", "2001:db8::6", "other.test:1"}).Draw(t, "cb"))
 		}
 		for i := rapid.IntRange(1, 5).Draw(t, "nsteps"); i > 0; i-- {
-			c.Steps = append(c.Steps, C05Step{Kind: rapid.SampledFrom([]string{"script", "script", "kill-shell", "restart", "custom-script", "curl", "restart-after-cache-removed", "cache-replaced-while-running"}).Draw(t, "step")})
+			c.Steps = append(c.Steps, C05Step{Kind: rapid.SampledFrom([]string{"script", "script", "kill-shell", "restart", "custom-script", "curl", "restart-after-cache-removed", "cache-replaced-while-running", "script-burst-after-template-failure"}).Draw(t, "step")})
 		}
 		return c
 	})
